@@ -150,24 +150,47 @@ def pick_shape(rng, shape, lo_h=1, lo_w=1):
     return max(rng.choice([1, 1, 2, 2, 3, 4, 5, 7]), lo_h), max(rng.choice([1, 1, 2, 3, 3, 4, 6, 8]), lo_w)
 
 
+P_SPOT = 0.25  # share of the generated npz inputs whose stored configuration is a SpotConfig
+SPOT_CONFIGS = [[25.0, 40.0], [100.0, 100.0], [5.0, 2.5], [12.5, 50.0], [1.0, 3.0], [10.0, 20.0]]
+
+
+def make_spot(rng, spec):
+    """the npz input `spec` becomes one saved from spot-wise data (configuration class SpotConfig: x and y spacing only)"""
+    spec["cfg"] = "spot"
+    spec["config"] = list(rng.choice(SPOT_CONFIGS))
+    return spec
+
+
+def make_raster(spec):
+    spec.pop("cfg", None)
+    if len(spec["config"]) != 3:
+        spec["config"] = [35.0, 140.0, 0.25]
+    return spec
+
+
 class NpzFmt(Fmt):
     name = "npz"
 
     def gen(self, rng, k, shape=None, elements=None):
         h, w = pick_shape(rng, shape)
         els = elements or rng.sample(NPZ_ELEMENTS, rng.choice([1, 1, 2, 2, 3, 4]))
-        return {"fmt": "npz", "suffix": rng.choice([".npz", ".npz", ".npz", ".NPZ"]), "h": h, "w": w, "elements": els,
+        spec = {"fmt": "npz", "suffix": rng.choice([".npz", ".npz", ".npz", ".NPZ"]), "h": h, "w": w, "elements": els,
                 "config": rng.choice([[35.0, 140.0, 0.25], [10.0, 20.0, 0.5], [12.5, 100.0, 0.1], [1.0, 3.0, 2.0]]),
                 "nans": rng.random() < 0.2}
+        if rng.random() < P_SPOT:  # an image saved from spot-wise data: the loader returns a SpotConfig (header class "Spot")
+            make_spot(rng, spec)
+        return spec
 
     def write(self, path, spec, vals):
         from pewlib import Config, Laser
+        from pewlib.config import SpotConfig
         from pewlib.io import npz
 
         data = np.empty((spec["h"], spec["w"]), dtype=[(e, np.float64) for e in spec["elements"]])
         for e, g in zip(spec["elements"], vals):
             data[e] = np.array(g, dtype=np.float64).reshape(spec["h"], spec["w"])
-        laser = Laser(data, config=Config(*spec["config"]), info={"Name": spec["stem"]})
+        config = SpotConfig(*spec["config"][:2]) if spec.get("cfg", "raster") == "spot" else Config(*spec["config"])
+        laser = Laser(data, config=config, info={"Name": spec["stem"]})
         with path.open("wb") as fp:  # a file object: numpy appends '.npz' to other names
             npz.save(fp, laser)
 
@@ -593,7 +616,11 @@ class C20(Prop):
             "stacks over inputs with one pixel count but different shapes (transposed pairs, several factorisations of 4..24), a fifth of "
             "the filter runs with an npz / text image longer than 512 or 1024 rows or columns (513..1300 by 1..12, ramp + noise + spikes "
             "or flat noise + spikes, both filters, windows 3/5/7, thresholds 0.5..3), pairwise "
-            "distinct values with full mantissas (spikes for the filters, NaNs), stacks of one instrument import followed by npz files, element subsets incl. unknown names, names present in only some inputs and inputs left with no element, "
+            "distinct values with full mantissas (spikes for the filters, NaNs), stacks of one instrument import followed by npz files, "
+            "a quarter of the npz inputs saved from spot-wise data (the loader returns a SpotConfig: x and y spacing, no speed / scantime) "
+            "through every sub-command - convert with and without --config, filter, first and later in a stack, beside raster inputs, to "
+            ".npz / .csv / .vtk (pixel spacing) -, a twelfth of the stacks of two or more inputs name one input twice, "
+            "element subsets incl. unknown names, names present in only some inputs and inputs left with no element, "
             "--config, both filters with windows 3/5/7 and thresholds 0..3, both orientations, NaN/finite/default pad, output omitted / "
             "existing directory / file (lower and upper case suffix) / mismatching suffix / missing directory / file with several inputs, "
             "formats .npz .csv .vtk (the written .vti decoded and compared) and an invalid one, a missing input, stack --calibrate; "
@@ -709,6 +736,16 @@ class C20(Prop):
                     s["nans"] = False
                 shape = shape or (s["h"], s["w"])
                 inputs.append(s)
+        # ---- configuration classes: force["spot"] = list of input indices whose npz is saved with a SpotConfig (all others raster)
+        if "spot" in force:
+            for k, s_ in enumerate(inputs):
+                if s_["fmt"] == "npz":
+                    make_spot(rng, s_) if k in force["spot"] else make_raster(s_)
+        # ---- stack: the same input named twice on the command line (both copies must appear, each at its own position)
+        dup = force["dup"] if "dup" in force else (cmd == "stack" and n >= 2 and rng.random() < 0.08)
+        if dup and cmd == "stack" and n >= 2:
+            i, j = rng.sample(range(n), 2)
+            inputs[j] = dict(inputs[i])
         # ---- dispatch classes of `load`: one input of about a seventh of the command lines is not an ordinary one
         # force["odd"]: False | True | {"fmt": "perkin" | "emptydir"} | {"fields": {...}} (replace / patch input 0)
         odd = force["odd"] if "odd" in force else (rng.random() < (0.16 if cmd != "stack" else 0.06) and not large and not eqcount)
@@ -763,7 +800,8 @@ class C20(Prop):
                 if e not in all_els:
                     all_els.append(e)
         if cmd == "convert":
-            case["config"] = rng.choice([None, None, [10.0, 20.0, 0.5], [7.5, 1.0, 0.125], [100.0, 200.0, 1.0]])
+            config = rng.choice([None, None, [10.0, 20.0, 0.5], [7.5, 1.0, 0.125], [100.0, 200.0, 1.0]])
+            case["config"] = force["config"] if "config" in force else config
             case["elements"] = self.pick_elements(rng, all_els)
         elif cmd == "filter":
             case["elements"] = self.pick_elements(rng, all_els)
@@ -776,6 +814,8 @@ class C20(Prop):
         else:
             case["orientation"] = rng.choice(["vertical", "horizontal", None])
             case["pad"] = rng.choice(["default", "nan", -1.0, 0.0, 2.5, 1e6])
+        if "elements" in force and cmd != "stack":
+            case["elements"] = force["elements"]
         return case
 
     @staticmethod
@@ -816,6 +856,31 @@ class C20(Prop):
                        "config": None, "elements": None, "filter": {"type": "median", "size": 3, "threshold": 0.5},
                        "inputs": [{"fmt": "csvdir", "suffix": suffix, "h": 3, "w": 4, "elements": ["A", "B"], "vendor": "nu", "xy": True,
                                    "nans": False, "stem": "nu", "sub": "", "seed": 11, "spikes": True}]}
+        # configuration classes: npz inputs saved from spot-wise data (the loader returns a SpotConfig) through every sub-command,
+        # with and without --config, to .npz / .vtk (pixel spacing) / .csv, beside raster inputs, first and later in a stack
+        spot_cases = [("convert", 1, [0], [10.0, 20.0, 0.5], "dir", ".npz", "inproc"), ("convert", 1, [0], None, "omitted", ".npz", "inproc"),
+                      ("convert", 1, [0], [7.5, 1.0, 0.125], "file", ".vtk", "inproc"), ("convert", 1, [0], None, "dir", ".vtk", "inproc"),
+                      ("convert", 2, [1], [100.0, 200.0, 1.0], "dir", ".npz", "subproc"), ("convert", 3, [0, 2], [10.0, 20.0, 0.5], "dir", ".csv", "inproc"),
+                      ("convert", 2, [0], [35.0, 140.0, 0.25], "omitted", ".npz", "inproc"),
+                      ("filter", 1, [0], None, "omitted", ".npz", "inproc"), ("filter", 2, [0], None, "dir", ".vtk", "inproc"),
+                      ("stack", 2, [0], None, "file", ".npz", "inproc"), ("stack", 2, [1], None, "file", ".npz", "inproc"),
+                      ("stack", 3, [0, 1, 2], None, "file", ".vtk", "inproc"), ("stack", 2, [0], None, "file", ".npz", "subproc")]
+        for j, (cmd, n, spot, config, okind, fmt_out, mode) in enumerate(spot_cases):
+            rng = random.Random(f"C20-targeted-spot-{j}")
+            yield self.build(rng, "quick", cmd, n=n, okind=okind, format=fmt_out, mode=mode, fmt="npz", stack_fmt="npz", eqcount=False,
+                             large=False, odd=False, dup=False, missing_input=False, calibrate=False, spot=spot, config=config, elements=None)
+        if "csvdir" in fmt_names():  # the other source of a SpotConfig (a Nu directory with x/y columns) with --config
+            for fmt_out in (".npz", ".vtk"):
+                yield {"cmd": "convert", "mode": "inproc", "format": fmt_out, "output": None, "missing_input": False, "relative": False,
+                       "config": [10.0, 20.0, 0.5], "elements": None,
+                       "inputs": [{"fmt": "csvdir", "suffix": "", "h": 3, "w": 4, "elements": ["A", "B"], "vendor": "nu", "xy": True,
+                                   "nans": False, "stem": "nu", "sub": "", "seed": 12, "spikes": False}]}
+        # stack: one input named twice (next to itself, and around another one)
+        for j, (n, orient) in enumerate([(2, "vertical"), (2, "horizontal"), (3, "vertical"), (4, "horizontal")]):
+            rng = random.Random(f"C20-targeted-dup-{j}")
+            case = self.build(rng, "quick", "stack", n=n, okind="file", format=".npz", mode="inproc", stack_fmt=["npz", "txt"][j % 2],
+                              eqcount=False, odd=False, dup=True, missing_input=False, calibrate=False)
+            yield {**case, "orientation": orient}
         # the dispatch classes of `load`: every odd suffix / layout once (convert, one input), the Agilent method variants,
         # PerkinElmer directories (with and without a csv beside the .xl files, every parameters.conf variant), an
         # unsupported directory; a failing load AFTER a good one (nothing may be written); `--calibrate`
@@ -1024,13 +1089,20 @@ class C20(Prop):
         root = ctx.tmpdir()
         cmd = case["cmd"]
         feats = {f"cmd:{cmd}", f"mode:{case['mode']}", f"format:{case['format']}"}
-        # ---- 1. inputs
+        # ---- 1. inputs (a path named twice is ONE input on disk: the description of its first occurrence counts)
+        inputs, first_of = [], {}
+        for spec in case["inputs"]:
+            inputs.append(first_of.setdefault(self.input_rel(spec), spec))
         rels = []
-        for k, spec in enumerate(case["inputs"]):
+        for k, spec in enumerate(inputs):
             fmt = FORMATS[spec["fmt"]]
             if not fmt.available():
                 raise core.InternalError(f"input format {spec['fmt']} has no writer in this tree")
             rel = self.input_rel(spec)
+            if rel in rels:
+                rels.append(rel)
+                feats.add("same-input-twice")
+                continue
             (root / rel).parent.mkdir(parents=True, exist_ok=True)
             vals = make_values(spec["seed"], k, len(spec["elements"]), spec["h"], spec["w"], spec["spikes"], spec["nans"],
                                spec.get("flat", False))
@@ -1063,7 +1135,7 @@ class C20(Prop):
             recs = [call_loader(c, root / rel) for c in cands]
             datas.append([r.pop("_data") for r in recs if r["outcome"] == "ok"])
             src["calls"] = recs
-        for spec, src in zip(case["inputs"], sources):  # writer / loader sanity for the ordinary inputs
+        for spec, src in zip(inputs, sources):  # writer / loader sanity for the ordinary inputs
             good = [r for r in src["calls"] if r["outcome"] == "ok"]
             if not spec.get("odd") and spec["fmt"] in ORDINARY + ("perkin",) and (
                     not good or [f["name"] for f in good[0]["fields"]] != list(spec["elements"])
@@ -1201,12 +1273,12 @@ class C20(Prop):
             feats.add("vtk-data-compared")
         if case.get("calibrate"):
             feats.add("calibrate")
-        n = len(case["inputs"])
+        n = len(inputs)
         feats.add("n1" if n == 1 else "n2" if n == 2 else "n>=3")
-        shapes = {(s["h"], s["w"]) for s in case["inputs"]}
+        shapes = {(s["h"], s["w"]) for s in inputs}
         if n > 1:
             feats.add("equal-shapes" if len(shapes) == 1 else "unequal-shapes")
-        if any(s["h"] == 1 or s["w"] == 1 for s in case["inputs"]):
+        if any(s["h"] == 1 or s["w"] == 1 for s in inputs):
             feats.add("size-1-axis")
         feats.add("out:" + ("omitted" if o is None else "dir" if o["kind"] == "dir" else "file"))
         if o is not None and o["kind"] == "file" and Path(o["name"]).suffix != Path(o["name"]).suffix.lower():
@@ -1217,37 +1289,55 @@ class C20(Prop):
             feats.add("missing-input")
         if cmd in ("convert", "filter") and case["elements"] is not None:
             feats.add("elements:subset")
-            known = {e for s in case["inputs"] for e in s["elements"]}
+            known = {e for s in inputs for e in s["elements"]}
             if any(e not in known for e in case["elements"]):
                 feats.add("elements:unknown")
-            elif any(not set(case["elements"]) & set(s["elements"]) for s in case["inputs"]):
+            elif any(not set(case["elements"]) & set(s["elements"]) for s in inputs):
                 feats.add("elements:input-without-any")
-            elif any(not set(case["elements"]) <= set(s["elements"]) for s in case["inputs"]):
+            elif any(not set(case["elements"]) <= set(s["elements"]) for s in inputs):
                 feats.add("elements:missing-in-some-input")
         if cmd == "convert" and case["config"] is not None:
             feats.add("config")
+        # configuration classes: which inputs does the SPECIFICATION load as spot-wise images (npz saved with a SpotConfig,
+        # Nu directory with x/y columns), and what becomes of that configuration
+        spot_in = [("config" in x and x["config"][0] == "spot") for x, src in zip(rep["spec_loads"], sources) if src["exists"]]
+        wrote = spec_["status"] == "ok" and bool(spec_["files"])
+        if any(spot_in):
+            feats.add("in:spot-config")
+            if len(spot_in) > 1 and not all(spot_in):
+                feats.add("in:spot-and-raster-config")
+            if wrote and cmd == "convert":
+                feats.add("spot-config:replaced-by---config" if case["config"] is not None else "spot-config:kept-by-convert")
+            if wrote and cmd == "filter":
+                feats.add("spot-config:kept-by-filter")
+            if wrote and cmd == "stack":
+                feats.add("spot-config:first-of-stack" if spot_in[0] else "spot-config:later-in-stack-dropped")
+            if wrote and case["format"] == ".vtk" and any(f.get("kind") == "vtk" for f in spec_["files"]):
+                feats.add("spot-config:with-vtk-spacing")
+        if any(f.get("kind") == "npz" and f["config"][0] == "spot" for f in spec_["files"]):
+            feats.add("out:spot-config")
         if cmd == "filter":
             feats.add("filter:" + (case["filter"]["type"] or "default"))
             if changed_by_filter:
                 feats.add("filter:changed-values")
             for axis, key in (("rows", "h"), ("cols", "w")):
-                longest = max(s[key] for s in case["inputs"])
+                longest = max(s[key] for s in inputs)
                 if longest > 2 * STRIP:
                     feats.add(f"filter:{axis}>1024")
                 elif longest > STRIP:
                     feats.add(f"filter:{axis}>512")
-            if any(max(s["h"], s["w"]) > STRIP for s in case["inputs"]):
+            if any(max(s["h"], s["w"]) > STRIP for s in inputs):
                 feats.add("filter:large-image:" + (case["filter"]["type"] or "default"))
         if cmd == "stack":
             feats.add("orient:" + (case["orientation"] or "default"))
             feats.add("pad:" + ("nan" if case["pad"] in ("default", "nan") else "finite"))
             if spec_["status"] == "ok" and len(shapes) > 1:
                 feats.add("stack:padding-needed")
-            if len(shapes) > 1 and len({s["h"] * s["w"] for s in case["inputs"]}) == 1:
+            if len(shapes) > 1 and len({s["h"] * s["w"] for s in inputs}) == 1:
                 feats.add("stack:equal-count-unequal-shapes")
                 if any((w, h) in shapes for h, w in shapes if h != w):
                     feats.add("stack:transposed-pair")
-        if any(s["nans"] for s in case["inputs"]):
+        if any(s["nans"] for s in inputs):
             feats.add("nan-values")
         nontrivial = bool(spec_["files"]) or spec_["status"] == "error"
         return outcome(impl, model, spec_, undetermined=undetermined, features=feats if nontrivial else [])
@@ -1272,6 +1362,8 @@ class C20(Prop):
                 yield {**case, "inputs": ins[:i] + [{**s, "elements": s["elements"][:-1]}] + ins[i + 1:]}
             if s["nans"]:
                 yield {**case, "inputs": ins[:i] + [{**s, "nans": False}] + ins[i + 1:]}
+            if s["fmt"] == "npz" and s.get("cfg") == "spot":
+                yield {**case, "inputs": ins[:i] + [make_raster(dict(s))] + ins[i + 1:]}
         if case["mode"] == "subproc":
             yield {**case, "mode": "inproc", "relative": False}
         if case.get("elements"):
